@@ -642,6 +642,17 @@ func (r *Rig) InjectOp(a *Account, tag any, op string, args any) Tx {
 	return r.MkMemo(a, memoOp+base64.StdEncoding.EncodeToString(bz), tag, r.carrier(a))
 }
 
+// InjectOpAfter builds a tx that carries msgs and whose post handler, once they all succeeded, runs the named harness
+// operation: if the operation returns an error the whole transaction, messages included, is rolled back.
+func (r *Rig) InjectOpAfter(a *Account, tag any, op string, args any, msgs ...sdk.Msg) Tx {
+	abz, err := json.Marshal(args)
+	if err != nil {
+		panic(err)
+	}
+	bz, _ := json.Marshal(opBody{Op: op, Args: abz})
+	return r.MkMemo(a, memoOp+base64.StdEncoding.EncodeToString(bz), tag, msgs...)
+}
+
 type routeBody struct{ Msgs []*codectypes.Any }
 type routeJSON struct {
 	Msgs []anyJSON `json:"msgs"`
